@@ -44,7 +44,7 @@ class C02(runner.Check):
             "thorough also re-runs depth-2 chains on results vs. a canonical rebuild of the result's value. non-trivial = "
             "canonical outcome is a non-empty value. distinct by construction.")
     assumptions = ["bridge+mirror marshalling", "equivalence of encodings is established by model/layoutsem.py (self-test)"]
-    bounds = {"quick": dict(N=2, M=2, K=5, enc_k=1, state_cap=28), "thorough": dict(N=3, M=3, K=8, enc_k=2, state_cap=3)}
+    bounds = {"quick": dict(N=2, M=2, K=5, enc_k=1, state_cap=28), "thorough": dict(N=3, M=2, K=7, enc_k=1, state_cap=20)}
 
     def types(self, tier):
         return values.TYPES_QUICK if tier == "quick" else values.TYPES_THOROUGH
